@@ -232,7 +232,7 @@ class C01Bloom(Scenario):
 SPEC = PropSpec(
     prop="C01",
     scenarios=[(1, C01Bloom)],
-    runs={"quick": 12000, "thorough": 400000},
+    runs={"quick": 12000, "thorough": 300000},
     rule=("one run = BloomFilter / BloomFilterOnDisk / ExpandingBloomFilter in a drawn sizing (est x rate covering "
           "number_bits mod 8 = 0..7 and 1..~125 hashes) with one of 7 hash strategies (fnv-1a, md5, sha256, two "
           "decorator-built, a hand-written 64-bit oracle, a range-squeezed oracle), str/non-ASCII/bytes keys, and "
